@@ -193,6 +193,9 @@ def slist_method(I, sl, name, args, kwargs, node):
         return v
     if name == "copy":
         return SList(sl.arr, sl.n, sl.elem_range)
+    if name == "tobytes":
+        snap = sl.snapshot("bytes")
+        return SBytes(snap.n, snap.at, (0, 256), "bytes")
     raise SymError("method %s on symbolic list" % name)
 
 
